@@ -9,7 +9,10 @@ package harness
 // Drives the REAL chain (full app: ante chain + msg router) with the five tokenfactory messages,
 // bank MsgSend, feegrant grant/revoke, and the exported wasm-binding entry points
 // (PerformCreateDenom / PerformMint / PerformBurn / ChangeAdmin / PerformSetMetadata) on the
-// deliver state.  Lean model: PalomaModel/Model/TokenFactory.lean, driver Driver/C16.lean.
+// deliver state — directly, and through the JSON custom message + Messenger.DispatchMsg path the
+// wasm router uses.  Wasm metadata payloads name denominations of their own (metadata.base,
+// display, first denom unit) that are chosen independently of the denom the message is addressed
+// to.  Lean model: PalomaModel/Model/TokenFactory.lean, driver Driver/C16.lean.
 
 import (
 	"crypto/sha256"
@@ -17,9 +20,11 @@ import (
 	"fmt"
 	"math/big"
 	"runtime/debug"
+	"sort"
 	"strconv"
 	"strings"
 	"testing"
+	"unicode/utf8"
 
 	errorsmod "cosmossdk.io/errors"
 	sdkmath "cosmossdk.io/math"
@@ -30,6 +35,7 @@ import (
 	bankkeeper "github.com/cosmos/cosmos-sdk/x/bank/keeper"
 	banktypes "github.com/cosmos/cosmos-sdk/x/bank/types"
 	palomaapp "github.com/palomachain/paloma/v2/app"
+	"github.com/palomachain/paloma/v2/util/libwasm"
 	tfbindings "github.com/palomachain/paloma/v2/x/tokenfactory/bindings"
 	tfbtypes "github.com/palomachain/paloma/v2/x/tokenfactory/bindings/types"
 	tfkeeper "github.com/palomachain/paloma/v2/x/tokenfactory/keeper"
@@ -58,6 +64,9 @@ type c16Row struct {
 type c16Obs struct {
 	full  map[string]c16Row
 	light map[string][]string
+	lmeta map[string]string // bank metadata tag of the light denoms
+	// EVERY bank metadata record of the chain: base -> digest of the whole record
+	allMeta map[string]string
 }
 
 type c16Env struct {
@@ -165,7 +174,15 @@ func c16Tag(name string) string {
 func (e *c16Env) observe() c16Obs {
 	ctx := e.readCtx()
 	app := e.fa.App()
-	o := c16Obs{full: map[string]c16Row{}, light: map[string][]string{}}
+	o := c16Obs{full: map[string]c16Row{}, light: map[string][]string{}, lmeta: map[string]string{}, allMeta: map[string]string{}}
+	for _, md := range app.BankKeeper.GetAllDenomMetaData(ctx) {
+		bz, err := md.Marshal()
+		if err != nil {
+			e.t.Fatalf("metadata marshal: %v", err)
+		}
+		h := sha256.Sum256(bz)
+		o.allMeta[md.Base] = fmt.Sprintf("%x", h[:8])
+	}
 	for _, d := range e.watch {
 		row := c16Row{supply: app.BankKeeper.GetSupply(ctx, d).Amount.String(), admin: "-", meta: "-"}
 		am, err := app.TokenFactoryKeeper.GetAuthorityMetadata(ctx, d)
@@ -192,6 +209,10 @@ func (e *c16Env) observe() c16Obs {
 			b = append(b, app.BankKeeper.GetBalance(ctx, e.addrs[h], d).Amount.String())
 		}
 		o.light[d] = b
+		o.lmeta[d] = "-"
+		if md, ok := app.BankKeeper.GetDenomMetaData(ctx, d); ok {
+			o.lmeta[d] = c16Tag(md.Name)
+		}
 	}
 	return o
 }
@@ -203,7 +224,7 @@ func (e *c16Env) show(o c16Obs) string {
 		out = append(out, r.supply+"|"+r.admin+"|"+r.meta+"|"+strings.Join(r.bals, ","))
 	}
 	for _, d := range e.light {
-		out = append(out, strings.Join(o.light[d], ","))
+		out = append(out, o.lmeta[d]+"|"+strings.Join(o.light[d], ","))
 	}
 	return strings.Join(out, " ")
 }
@@ -363,6 +384,9 @@ func (e *c16Env) monitors(a c16Act, res string, pre, post c16Obs) {
 				e.hit("failed_op_is_noop", fmt.Sprintf("%s %s changed balances of %s", a.kind, res, e.enc(d)))
 			}
 		}
+		for _, x := range c16MetaDiff(pre, post) {
+			e.hit("failed_op_is_noop", fmt.Sprintf("%s %s changed the bank metadata of %s", a.kind, res, e.enc(x)))
+		}
 		return
 	}
 	actor := e.A(a.actor)
@@ -389,6 +413,15 @@ func (e *c16Env) monitors(a c16Act, res string, pre, post c16Obs) {
 		}
 		if !strings.HasPrefix(a.denom, "factory/"+actor+"/") {
 			e.hit("namespace", "created outside namespace: "+e.enc(a.denom))
+		}
+	}
+	// "only its current admin can change its metadata", over EVERY denomination the bank knows
+	// (watched or not, factory or native, well-formed or not): a bank metadata record may only be
+	// written by a successful create / set-metadata whose target denomination — the one whose
+	// admin was just checked above — is the key of that record.
+	for _, x := range c16MetaDiff(pre, post) {
+		if !(x == a.denom && (a.kind == "create" || a.kind == "setmeta")) {
+			e.hit("only_admin_acts", fmt.Sprintf("%s on %s by %d wrote the bank metadata of %s (tracked admin of that denom: %q)", a.kind, e.enc(a.denom), a.actor, e.enc(x), e.enc(e.adm[x])))
 		}
 	}
 	// frame: which rows may change, and how
@@ -503,6 +536,49 @@ func (e *c16Env) monitors(a c16Act, res string, pre, post c16Obs) {
 			e.hit("only_admin_acts", fmt.Sprintf("%s: authority admin %s, tracked %s", e.enc(d), post.full[d].admin, want))
 		}
 	}
+}
+
+// c16MetaDiff lists (sorted) the denominations whose bank metadata record differs between two observations.
+func c16MetaDiff(pre, post c16Obs) []string {
+	var out []string
+	for k, v := range pre.allMeta {
+		if w, ok := post.allMeta[k]; !ok || w != v {
+			out = append(out, k)
+		}
+	}
+	for k := range post.allMeta {
+		if _, ok := pre.allMeta[k]; !ok {
+			out = append(out, k)
+		}
+	}
+	sort.Strings(out)
+	return out
+}
+
+// c16Dispatch sends a contract's token-factory custom message the way the wasm router does below
+// the VM: the JSON the contract emitted is decoded into the bindings message and handed to the
+// token factory messenger (DispatchMsg -> createDenom / mintTokens / ... / setMetadata).
+func (e *c16Env) dispatch(ctx sdk.Context, tk *tfkeeper.Keeper, bk *bankkeeper.BaseKeeper, contract int, msg tfbtypes.Message) error {
+	bz, err := json.Marshal(libwasm.CustomMessage{TokenFactory: &msg})
+	if err != nil {
+		e.t.Fatalf("custom message marshal: %v", err)
+	}
+	var cm libwasm.CustomMessage
+	if err := json.Unmarshal(bz, &cm); err != nil || cm.TokenFactory == nil {
+		e.t.Fatalf("custom message unmarshal: %v (%s)", err, bz)
+	}
+	_, _, _, err = tfbindings.NewMessenger(bk, tk).DispatchMsg(ctx, e.addrs[contract], "", *cm.TokenFactory)
+	return err
+}
+
+// c16JSONSafe: the strings survive a JSON round trip unchanged
+func c16JSONSafe(ss ...string) bool {
+	for _, s := range ss {
+		if !utf8.ValidString(s) {
+			return false
+		}
+	}
+	return true
 }
 
 // ---- generators ----
@@ -796,6 +872,64 @@ func TestC16(t *testing.T) {
 				x := c[rng.Intn(len(c))]
 				return x.d, x.h
 			}
+			// a denomination OTHER than the one a message is addressed to, for payload fields that
+			// name a denomination of their own (metadata.base, display, denom_units[0].denom): mostly
+			// one that exists and belongs to somebody else, also native ones (with and without bank
+			// metadata), never-created and malformed names
+			pickOther := func(d string) string {
+				var live []string
+				for _, x := range factory {
+					if x != d && e.exists[x] {
+						live = append(live, x)
+					}
+				}
+				switch x := rng.Intn(12); {
+				case x < 5 && len(live) > 0:
+					return live[rng.Intn(len(live))]
+				case x < 7:
+					return factory[rng.Intn(len(factory))]
+				case x < 8:
+					return c16Native
+				case x < 9:
+					return FABondDenom
+				case x < 11:
+					return otherValid[rng.Intn(len(otherValid))]
+				default:
+					return malformed[rng.Intn(len(malformed))]
+				}
+			}
+			// metadata.base and the denomination the record describes itself as, for a wasm message
+			// addressed to d: base is omitted, d, or another denomination; the body mostly agrees with
+			// the effective base (so that the bank's own validation passes), sometimes with d or a third one
+			pickMetaShape := func(d string) (base, body string) {
+				switch x := rng.Intn(10); {
+				case x < 4:
+				case x < 6:
+					base = d
+				default:
+					base = pickOther(d)
+				}
+				body = base
+				if body == "" {
+					body = d
+				}
+				switch x := rng.Intn(10); {
+				case x < 1:
+					body = d
+				case x < 3:
+					body = pickOther(d)
+				}
+				if base == "-" { // reserved in the line protocol
+					base = ""
+				}
+				return
+			}
+			baseArg := func(base string) string {
+				if base == "" {
+					return "-"
+				}
+				return e.enc(base)
+			}
 			nOps := 20 + rng.Intn(12)
 			okCreates, okMints := 0, 0
 			post := e.start
@@ -915,13 +1049,21 @@ func TestC16(t *testing.T) {
 					if rng.Intn(2) == 0 {
 						mdOk := rng.Intn(4) != 0
 						tag := 1 + rng.Intn(90)
-						m := c16WasmMeta(e.meta(full, mdOk, tag), "")
+						base, body := pickMetaShape(full)
+						m := c16WasmMeta(e.meta(body, mdOk, tag), base)
 						wm = &m
-						mds = fmt.Sprintf("%d:%d", c16B2i(mdOk), tag)
+						mds = fmt.Sprintf("%s,%s,%d,%d", baseArg(base), e.enc(body), c16B2i(mdOk), tag)
+						if base != "" && base != full {
+							r.Stat("wcreate:foreign_base")
+						}
 					}
 					line = fmt.Sprintf("wcreate %d %s %s", a, e.enc(sub), mds)
 					act = c16Act{kind: "create", wasm: true, actor: a, signer: a, denom: full}
+					via := rng.Intn(2) == 0 && c16JSONSafe(sub)
 					res = e.wasm(func(ctx sdk.Context, tk *tfkeeper.Keeper, bk *bankkeeper.BaseKeeper) error {
+						if via {
+							return e.dispatch(ctx, tk, bk, a, tfbtypes.Message{CreateDenom: &tfbtypes.CreateDenom{Subdenom: sub, Metadata: wm}})
+						}
 						_, err := tfbindings.PerformCreateDenom(tk, bk, ctx, e.addrs[a], &tfbtypes.CreateDenom{Subdenom: sub, Metadata: wm})
 						return err
 					})
@@ -933,8 +1075,13 @@ func TestC16(t *testing.T) {
 					amt := e.pickAmt(balOf(a, d), supOf(d), false)
 					line = fmt.Sprintf("wmint %d %s %s %s", a, e.enc(d), amt, tol)
 					act = c16Act{kind: "mint", wasm: true, actor: a, signer: a, denom: d, amt: amt, to: to}
+					via := rng.Intn(2) == 0 && c16JSONSafe(d)
 					res = e.wasm(func(ctx sdk.Context, tk *tfkeeper.Keeper, bk *bankkeeper.BaseKeeper) error {
-						return tfbindings.PerformMint(tk, bk, ctx, e.addrs[a], &tfbtypes.MintTokens{Denom: d, Amount: sdkmath.NewIntFromBigInt(amt), MintToAddress: tos})
+						m := &tfbtypes.MintTokens{Denom: d, Amount: sdkmath.NewIntFromBigInt(amt), MintToAddress: tos}
+						if via {
+							return e.dispatch(ctx, tk, bk, a, tfbtypes.Message{MintTokens: m})
+						}
+						return tfbindings.PerformMint(tk, bk, ctx, e.addrs[a], m)
 					})
 				case kind < 81: // wasm burn
 					d := pickLive()
@@ -947,8 +1094,13 @@ func TestC16(t *testing.T) {
 					amt := e.pickAmt(balOf(a, d), supOf(d), true)
 					line = fmt.Sprintf("wburn %d %s %s %s", a, e.enc(d), amt, fl)
 					act = c16Act{kind: "burn", wasm: true, actor: a, signer: a, denom: d, amt: amt}
+					via := rng.Intn(2) == 0 && c16JSONSafe(d)
 					res = e.wasm(func(ctx sdk.Context, tk *tfkeeper.Keeper, bk *bankkeeper.BaseKeeper) error {
-						return tfbindings.PerformBurn(tk, ctx, e.addrs[a], &tfbtypes.BurnTokens{Denom: d, Amount: sdkmath.NewIntFromBigInt(amt), BurnFromAddress: fs})
+						m := &tfbtypes.BurnTokens{Denom: d, Amount: sdkmath.NewIntFromBigInt(amt), BurnFromAddress: fs}
+						if via {
+							return e.dispatch(ctx, tk, bk, a, tfbtypes.Message{BurnTokens: m})
+						}
+						return tfbindings.PerformBurn(tk, ctx, e.addrs[a], m)
 					})
 				case kind < 84: // wasm change admin
 					d := pickLive()
@@ -957,29 +1109,34 @@ func TestC16(t *testing.T) {
 					nas, nal := e.addrArg(na)
 					line = fmt.Sprintf("wchadmin %d %s %s", a, e.enc(d), nal)
 					act = c16Act{kind: "chadmin", wasm: true, actor: a, signer: a, denom: d, to: na}
+					via := rng.Intn(2) == 0 && c16JSONSafe(d)
 					res = e.wasm(func(ctx sdk.Context, tk *tfkeeper.Keeper, bk *bankkeeper.BaseKeeper) error {
-						return tfbindings.ChangeAdmin(tk, ctx, e.addrs[a], &tfbtypes.ChangeAdmin{Denom: d, NewAdminAddress: nas})
+						m := &tfbtypes.ChangeAdmin{Denom: d, NewAdminAddress: nas}
+						if via {
+							return e.dispatch(ctx, tk, bk, a, tfbtypes.Message{ChangeAdmin: m})
+						}
+						return tfbindings.ChangeAdmin(tk, ctx, e.addrs[a], m)
 					})
-				case kind < 87: // wasm set metadata
+				case kind < 89: // wasm set metadata
 					d := pickLive()
 					a := pickActor(d, 6)
 					mdOk := rng.Intn(5) != 0
 					tag := 1 + rng.Intn(90)
-					base, bl := "", "-"
-					switch rng.Intn(4) {
-					case 0:
-						base, bl = d, e.enc(d)
-					case 1:
-						base = factory[rng.Intn(len(factory))]
-						bl = e.enc(base)
-					}
-					if base == "" {
-						bl = "-"
-					}
-					line = fmt.Sprintf("wsetmeta %d %s %s %d %d", a, e.enc(d), bl, c16B2i(mdOk), tag)
+					base, body := pickMetaShape(d)
+					line = fmt.Sprintf("wsetmeta %d %s %s %s %d %d", a, e.enc(d), baseArg(base), e.enc(body), c16B2i(mdOk), tag)
 					act = c16Act{kind: "setmeta", wasm: true, actor: a, signer: a, denom: d}
-					m := c16WasmMeta(e.meta(d, mdOk, tag), base)
+					if base != "" && base != d {
+						r.Stat("wsetmeta:foreign_base")
+						if e.adm[d] == e.A(a) && body == base && mdOk {
+							r.Stat("wsetmeta:foreign_base_by_admin_selfconsistent")
+						}
+					}
+					m := c16WasmMeta(e.meta(body, mdOk, tag), base)
+					via := rng.Intn(2) == 0 && c16JSONSafe(d, base, body)
 					res = e.wasm(func(ctx sdk.Context, tk *tfkeeper.Keeper, bk *bankkeeper.BaseKeeper) error {
+						if via {
+							return e.dispatch(ctx, tk, bk, a, tfbtypes.Message{SetMetadata: &tfbtypes.SetMetadata{Denom: d, Metadata: m}})
+						}
 						return tfbindings.PerformSetMetadata(tk, bk, ctx, e.addrs[a], d, m)
 					})
 				case kind < 94: // bank send (spreads factory tokens to non-admins)
